@@ -13,6 +13,7 @@ X1_ERR = ["error::PdfError"]
 X1_ALL = ["error::PdfError", "primitive::Primitive", "content::Op", "primitive::Dictionary", "primitive::PdfString",
           "primitive::PdfStream", "std::vec::Vec<primitive::Primitive>", "std::vec::Vec<content::Op>"]
 FMT_STUB = "alloc::fmt::format -> String::new() (error messages are not checked, error kinds are)"
+RS_STUB = "std::hash::RandomState::new -> fixed keys (X3)"
 
 OBS = []
 
@@ -198,10 +199,18 @@ ob("crypt_exemptions", ["C06"], "crypt.rs", unwind=50, cuts=X1_ERR, stubs=[FMT_S
    functions=["crypt::Decoder::decrypt"],
    bound="every (object, /Encrypt ref, metadata ref, EncryptMetadata flag) combination, data length 0..=2")
 
+CTX_STUB = "md5::Context::{new, consume, compute} -> recording stubs (X7): the byte sequence hashed by Algorithm 2 is what is checked"
+for rev in (2, 3):
+    ob("crypt_kdf_user_rev%d" % rev, ["C06"], "crypt.rs", unwind=54, cuts=X1_ALL, stubs=[FMT_STUB, RS_STUB, MD5_STUB, RC4_STUB, CTX_STUB],
+       timeout=2400, mem_gb=24, replay=False, tier="quick" if rev == 2 else "thorough",
+       functions=["crypt::Decoder::from_password", "crypt::Decoder::from_password::key_derivation_user_password_rc4",
+                  "crypt::Decoder::from_password::check_password_rc4"],
+       bound="revision %d, every user password of 0..=40 bytes, every /P, key size %s: hashed bytes = pad32(password) || O || P_le || ID, "
+             "%s, file key = first digest" % (rev, "5" if rev == 2 else "16", "no extra rounds" if rev == 2 else "50 extra MD5 rounds over key_size bytes"))
+
 # ---------------------------------------------------------------------------------------------------------------------
 # object/types.rs: C07 (+ C14 hostile counts / cycles)
 # ---------------------------------------------------------------------------------------------------------------------
-RS_STUB = "std::hash::RandomState::new -> fixed keys (X3)"
 PGFN = ["object::types::PageTree::page", "object::types::PageTree::page_limited"]
 X1_PAGE = X1_ALL + ["object::types::PagesNode", "object::types::Page", "object::types::PageTree", "object::types::Resources",
                     "object::types::PagesRc", "object::RcRef<object::types::PagesNode>"]
@@ -302,6 +311,16 @@ for h, t in (("prim_name_ser_n1", "quick"), ("prim_name_ser_n2", "quick"), ("pri
        bound="%s: the serialised name token consists of regular characters only and decodes (#xx) to the same bytes; no panic" %
              {"prim_name_ser_n1": "every 1-character ASCII name", "prim_name_ser_n2": "every 2-character ASCII name",
               "prim_name_ser_utf8": "every name made of one 2-byte UTF-8 character"}[h])
+
+# ---------------------------------------------------------------------------------------------------------------------
+# backend.rs: C01 (range arithmetic, header search)
+# ---------------------------------------------------------------------------------------------------------------------
+ob("backend_to_range_total", ["C01"], "backend.rs", unwind=4, cuts=X1_ERR, stubs=[FMT_STUB], timeout=600,
+   functions=["backend::IndexRange::to_range"], bound="every (start, end, len) in usize^3, all four range kinds")
+ob("backend_read_total", ["C01"], "backend.rs", unwind=6, cuts=X1_ERR, stubs=[FMT_STUB], timeout=600,
+   functions=["backend::Backend::read"], bound="4-byte backend, every usize range")
+ob("backend_locate_header", ["C01"], "backend.rs", unwind=9, cuts=X1_ERR, stubs=[FMT_STUB], timeout=900,
+   functions=["backend::Backend::locate_start_offset"], bound="every 7-byte buffer: first position of %PDF- or error")
 
 # ---------------------------------------------------------------------------------------------------------------------
 # parser/mod.rs (experimental: one level of the object parser)
